@@ -50,6 +50,9 @@ type EnvRec struct {
 	Rtype  string `json:"rtype"`
 	Rec    int    `json:"rec"` // length of proxy_record
 	Nxt    int    `json:"nxt"` // length of proxy_next
+	Rs     string `json:"rs"`   // proxy_record, comma-joined
+	Ns     string `json:"ns"`   // proxy_next, comma-joined
+	Rret   string `json:"rret"` // the return route a reply to this envelope carries: the record without its last hop
 }
 
 // Ev is one trace line. Every top-level field is always present so that the
@@ -254,6 +257,10 @@ func envEv(name string, conn int, r *goat.Rpc) Ev {
 	h := r.GetHeader()
 	x.Meth, x.Src, x.Dst = h.GetMethod(), h.GetSource(), h.GetDestination()
 	x.Rec, x.Nxt = len(h.GetProxyRecord()), len(h.GetProxyNext())
+	x.Rs, x.Ns = strings.Join(h.GetProxyRecord(), ","), strings.Join(h.GetProxyNext(), ",")
+	if n := len(h.GetProxyRecord()); n > 1 {
+		x.Rret = strings.Join(h.GetProxyRecord()[:n-1], ",")
+	}
 	if r.GetReset_() != nil {
 		x.Rtype = r.GetReset_().GetType()
 	}
